@@ -109,12 +109,12 @@ def run(tier: str, seed: int) -> int:
     import jax.numpy as jnp
     import exponax as ex
     import warnings
-    warnings.filterwarnings("ignore", message=".*JAX-transformed callable.*")
+    warnings.filterwarnings("ignore", category=UserWarning, module="equinox")
     rng = np.random.default_rng(seed)
     work = os.path.join(tlc.SCRATCH, f"c06.{os.getpid()}")
     os.makedirs(work, exist_ok=True)
     cfg = os.path.join(work, "MC_Programs.cfg")
-    tlc.write_cfg(cfg, spec="Spec", constants={"MaxN": 3, "MaxB": 3}, invariants=INVS)
+    tlc.write_cfg(cfg, spec="Spec", constants={"MaxN": 3, "MaxB": 3, "MaxHist": 2 if tier == "quick" else 3}, invariants=INVS)
     res = tlc.run_tlc("MC_Programs", cfg, workers=8, dump=True, timeout=3000, coverage=True)
     run_.add_tlc(res, "MC_Programs")
     if not res.ok:
@@ -123,6 +123,7 @@ def run(tier: str, seed: int) -> int:
         if res.coverage.get(act, (0, 0))[0] == 0:
             raise RuntimeError(f"vacuous model: action {act} never taken")
     terminals = [(st["prog"], st["out"]) for st in iter_dump_states(res.dump, must_contain='pc = "done"')]
+    histories = sorted(tuple(h) for h in tlc.extract_printed(res.out, "histories")[0])
     tlc.cleanup(res)
 
     # ---------------------------------------------------------------- (A) integer bookkeeping stepper: exact
@@ -180,9 +181,15 @@ def run(tier: str, seed: int) -> int:
             continue
         sel = [progs[i] for i in rng.permutation(len(progs))]
         sel_novp = [p for p in sel if not p[0]["vp"]][:per_class]
-        for prog, shape, imap in sel_novp:
+        for pi, (prog, shape, imap) in enumerate(sel_novp):
             B = prog["B"]
             U = rng.standard_normal((B, C) + (N,) * D) * 0.3
+            # special states: the exact zero state (a fixed point of unforced equations only) and a constant state in the first lane
+            special = ("random", "zero", "constant")[pi % 3]
+            if special == "zero":
+                U[0] = 0.0
+            elif special == "constant":
+                U[0] = 0.5
             ref = {}
             for b in range(1, B + 1):
                 u = jnp.asarray(U[b - 1])
@@ -190,7 +197,8 @@ def run(tier: str, seed: int) -> int:
                 for t in range(1, prog["n"] + 1):
                     u = s0(u)
                     ref[(b, t)] = np.asarray(u)
-            key = {"kind": "stepper-program", "cls": name, "what": f"loop={prog['loop']},vm={prog['vm']}", "mode": f"jit_in={prog['jit_in']},jit_out={prog['jit_out']}"}
+            key = {"kind": "stepper-program", "cls": name, "what": f"loop={prog['loop']},vm={prog['vm']}", "mode": f"jit_in={prog['jit_in']},jit_out={prog['jit_out']}",
+                   "symbol": special}
             run_.case(("cls", name, repr(sorted(prog.items()))))
             try:
                 f = build_program(eqx, jax, ex, prog, make_base, None, None)
@@ -258,6 +266,53 @@ def run(tier: str, seed: int) -> int:
                 worst = max(float(np.max(np.abs(got[idx] - ref[bt]))) for idx, bt in imap.items())
                 if not worst <= RTOL * scale:
                     run_.violation(dict(key, mode="value"), {"prog": prog, "max_abs_diff": worst, "scale": scale, "values": vals.tolist()})
+    # ---------------------------------------------------------------- (C) construction histories on cold grid sizes
+    fams = ["Burgers", "Diffusion", "KuramotoSivashinsky", "GeneralConvectionStepper", "FisherKPP", "KortewegDeVries", "NavierStokesVorticity",
+            "NormalizedLinearStepper", "GrayScott", "Wave"]
+    fams = [f for f in fams if f in classes]
+    used = set(shapes.values())
+    fresh = {1: iter(n for n in range(20, 400) if n not in used), 2: iter(range(10, 200)), 3: iter(range(7, 60))}
+    for hi, hist in enumerate(histories):
+        name = fams[hi % len(fams)]
+        D = registry.dims_of(name)[0]
+        N = next(fresh[D])
+        cls = classes[name]
+        arg = [k for k, mk, base in sweep_args(cls)][:1]
+        sw = sweep_args(cls)[0] if sweep_args(cls) else None
+
+        def make_h(x, name=name, D=D, N=N, sw=sw):
+            return registry.make(name, D, N, L=2.0, dt=0.02, **(sw[1](x) if sw else {}))
+        x0 = sw[2] if sw else 0.0
+        u = None
+        results = []
+        key = {"kind": "construction-history", "cls": name, "what": "->".join(hist)}
+        run_.case(("hist", name, hist))
+        try:
+            for mode in hist:
+                if mode == "eager":
+                    st = make_h(x0)
+                    if u is None:
+                        u = jnp.asarray(rng.standard_normal((st.num_channels,) + (N,) * D) * 0.3)
+                    results.append(np.asarray(st(u)))
+                    continue
+                if u is None:
+                    C0 = registry.num_channels(name, D)
+                    u = jnp.asarray(rng.standard_normal((C0,) + (N,) * D) * 0.3)
+                if mode == "jit":
+                    results.append(np.asarray(eqx.filter_jit(lambda x, v: make_h(x)(v))(jnp.asarray(x0), u)))
+                elif mode == "vmap":
+                    results.append(np.asarray(eqx.filter_vmap(lambda x, v: make_h(x)(v))(jnp.asarray([x0, x0]), jnp.stack([u, u])))[1])
+                else:
+                    results.append(np.asarray(eqx.filter_jit(eqx.filter_vmap(lambda x, v: make_h(x)(v)))(jnp.asarray([x0, x0]), jnp.stack([u, u])))[0])
+            ref = np.asarray(make_h(x0)(u))
+        except Exception as e:  # noqa: BLE001
+            run_.violation(dict(key, mode="raised"), {"N": N, "history": list(hist), "exception": f"{type(e).__name__}: {str(e)[:300]}"})
+            continue
+        for i, r in enumerate(results):
+            if r.shape != ref.shape or not float(np.max(np.abs(r - ref))) <= RTOL * (1 + float(np.max(np.abs(ref)))):
+                run_.violation(dict(key, mode="value"), {"N": N, "history": list(hist), "position": i})
+                break
+    run_.extra["construction_histories"] = len(histories)
     run_.extra["uncovered"] = uncovered
     run_.rule = ("integer cases: one per terminal TLC state (program record; exact equality and shape); stepper cases: (class, program) with the eager "
                  "one-at-a-time loop of the same code as oracle and the specification's index map for the axis order; sweep cases: (class, constructor "
